@@ -42,6 +42,9 @@ structure G where
   logical : Rat := 0                -- logical time of the thread executing ops
   inTask : Bool := false
   bad : Bool := false
+  -- a task stopped in the middle of its step (atom `!`): clock, remaining atoms, result, task, its logical time
+  paused : Option (CK × List String × String × Nat × Rat) := none
+  blocked : List (CK × List String) := []      -- calls of the second thread waiting for the lock
 
 abbrev M := StateM G
 
@@ -179,23 +182,28 @@ def killTask (t : Nat) : M Unit :=
     | some td => { g with tasks := g.tasks.setIfInBounds t (some { td with dead := td.routine }) }
     | none => g
 
-/-- ops of a behaviour, executed inside an awake; stops at the first op that raises -/
-def runAtoms (atoms : List String) : M Bool := do
-  for a in atoms do
+inductive AtomsResult where
+  | ok | raised | paused (rest : List String)
+
+/-- ops of a behaviour, executed inside an awake; stops at the first op that raises, or at `!` -/
+def runAtoms : List String → M AtomsResult
+  | [] => return .ok
+  | a :: rest => do
+    if a == "!" then return .paused rest
     match a.splitOn ":" with
     | ["+", d] =>
       match parseRat d with
       | some d => modify fun g => { g with now := g.now + d }
       | none => modify fun g => { g with bad := true }
+      runAtoms rest
     | k :: w =>
       match parseCK k with
       | some ck =>
         match ← clockOp ck w with
-        | some _ => return false
-        | none => pure ()
-      | none => modify fun g => { g with bad := true }
-    | _ => modify fun g => { g with bad := true }
-  return true
+        | some _ => return .raised
+        | none => runAtoms rest
+      | none => modify (fun g => { g with bad := true }); runAtoms rest
+    | _ => modify (fun g => { g with bad := true }); runAtoms rest
 
 /-- `r:inf`: an infinite delta is "never" (nothing is queued), i.e. the move `finish done`. -/
 def parseResult (res : String) : Result :=
@@ -219,17 +227,30 @@ def runClockThread (ck : CK) : Nat → M Unit
         let _ ← clockMove ck (.thr g.now)
         runClockThread ck fuel
       | .inAwake _ x =>
-        let (atoms, res) ← nextBeh x.task
+        -- a step that was stopped at `!` goes on with its remaining atoms
+        let g0 ← get
+        let (atoms, res, lt) ← match g0.paused with
+          | some (_, rest, res, _, lt) => do
+              set { g0 with paused := none }
+              pure (rest, res, lt)
+          | none => do
+              let (atoms, res) ← nextBeh x.task
+              pure (atoms, res, c.tempo.beats2secs x.key)
         let saved := (← get).logical
-        modify fun g => { g with logical := c.tempo.beats2secs x.key, inTask := true }
-        let ok ← runAtoms atoms
+        modify fun g => { g with logical := lt, inTask := true }
+        let r ← runAtoms atoms
         modify fun g => { g with logical := saved, inTask := false }
-        if ok then
+        match r with
+        | .paused rest =>
+          modify fun g => { g with paused := some (ck, rest, res, x.task, lt) }
+          return
+        | .ok =>
           let _ ← clockMove ck (.finish (parseResult res))
-        else
+          runClockThread ck fuel
+        | .raised =>
           killTask x.task
           let _ ← clockMove ck (.finish .raise)
-        runClockThread ck fuel
+          runClockThread ck fuel
       | _ => return
 
 /-- run the AppClock thread until it is parked, gone, or (if asked) in the window -/
@@ -246,18 +267,27 @@ def runAppThread (stopInWindow : Bool) : Nat → M Unit
       let _ ← appMove (.thr g.now)
       runAppThread false fuel
     | .inAwake _ _ x =>
-      let (atoms, res) ← nextBeh x.task
+      let (atoms, res) ← match g.paused with
+        | some (_, rest, res, _, _) => do
+            set { g with paused := none }
+            pure (rest, res)
+        | none => nextBeh x.task
       let saved := g.logical
       modify fun g => { g with logical := x.key, inTask := true }
-      let ok ← runAtoms atoms
+      let r ← runAtoms atoms
       modify fun g => { g with logical := saved, inTask := false }
       let now := (← get).now
-      if ok then
+      match r with
+      | .paused rest =>
+        modify fun g => { g with paused := some (.app, rest, res, x.task, x.key) }
+        return
+      | .ok =>
         let _ ← appMove (.finish (parseResult res) now)
-      else
+        runAppThread stopInWindow fuel
+      | .raised =>
         killTask x.task
         let _ ← appMove (.finish .raise now)
-      runAppThread stopInWindow fuel
+        runAppThread stopInWindow fuel
     | _ => return
 
 def FUEL : Nat := 100000
@@ -313,6 +343,7 @@ def runPolicy (dt late : Rat) : M Unit := do
   let mut fuel := FUEL
   while fuel > 0 do
     fuel := fuel - 1
+    if (← get).paused.isSome then return
     let order := (← get).order
     let mut ran := false
     for ck in order do
@@ -367,9 +398,40 @@ def takeOut : M String := do
   set { g with out := #[] }
   return if g.out.isEmpty then "-" else ";".intercalate g.out.toList
 
-def doLine (line : String) : M String := do
-  let ws := (line.trimAscii.toString.splitOn " ").filter (· ≠ "")
+/-- lines that may follow while a step is stopped at `!` -/
+def keepsPause : List String → Bool
+  | "adv" :: _ => true
+  | "dump" :: _ => true
+  | "task" :: _ => true
+  | "resume" :: _ => true
+  | "op" :: "o" :: _ :: x :: _ => x == "s" || x == "q" || x == "c" || x == "T"
+  | _ => false
+
+/-- the stopped step goes on until its thread sleeps, then the calls that waited for the lock run -/
+def doResume : M Unit := do
+  let mut fuel := 1000
+  while fuel > 0 do
+    fuel := fuel - 1
+    match (← get).paused with
+    | none => fuel := 0
+    | some (ck, _, _, _, _) =>
+      match ck with
+      | .app => runAppThread false FUEL
+      | _ => runClockThread ck FUEL
+  let bl := (← get).blocked
+  modify fun g => { g with blocked := [] }
+  for (ck, w) in bl do
+    modify fun g => { g with logical := g.now }
+    match ← clockOp ck w with
+    | some e => emit s!"R:{e}"
+    | none => pure ()
+
+def doLine1 (ws : List String) : M String := do
   match ws with
+  | ["resume"] =>
+    if (← get).paused.isNone then return "noop"
+    doResume
+    takeOut
   | "task" :: id :: kind :: rest =>
     match id.toNat? with
     | some id =>
@@ -394,9 +456,18 @@ def doLine (line : String) : M String := do
     match parseRat d with
     | some d => modify (fun g => { g with now := g.now + d }); return "-"
     | none => return "bad-line"
-  | "op" :: _thr :: k :: w =>
+  | "op" :: thr :: k :: w =>
     match parseCK k with
     | some ck =>
+      if thr == "o" && (← get).paused.isSome then
+        -- the lock is held by the stopped step: the call waits (a stopped TempoClock answers at once)
+        let stopped ← match ← getClock ck with
+          | some c => pure (!c.run)
+          | none => pure false
+        if stopped then
+          return (if w.head? == some "c" then "-" else "R:ClockNotRunning")
+        modify fun g => { g with blocked := g.blocked ++ [(ck, w)] }
+        return "-"
       modify fun g => { g with logical := g.now }
       if w == ["stop"] then
         match ← getClock ck with
@@ -447,6 +518,16 @@ def doLine (line : String) : M String := do
     | _, _ => return "bad-line"
   | ["dump"] => doDump
   | _ => return "bad-line"
+
+def doLine (line : String) : M String := do
+  let ws := (line.trimAscii.toString.splitOn " ").filter (· ≠ "")
+  if (← get).paused.isSome && !keepsPause ws then
+    doResume
+    let pre ← takeOut
+    let out ← doLine1 ws
+    let head := if pre == "-" then "|" else pre ++ ";|"
+    return (if out == "-" || out == "noop" then head else head ++ ";" ++ out)
+  else doLine1 ws
 
 /-- initial world: both singleton clock threads have reached their first `wait` -/
 def G.start : G :=
